@@ -16,7 +16,7 @@ from math import comb
 import featlib
 from featlib import Check, rel
 import symex
-from symex import SymEx, PredEx, Poly, Loc, NotClosedForm, leaf_name, loc_name
+from symex import SymEx, AbsSymEx, PredEx, Poly, Loc, NotClosedForm, leaf_name, loc_name
 from cfold import Folder, Num, NotConstant
 
 F = featlib.repo_path
@@ -246,6 +246,9 @@ def run(tier):
     ck.rule("E11.chain-rule", "ParametricEvalHelper: value = ref_value; grad_j = sum_k ref_grad_k * jac_inv(k,j); hess_ab = sum_kl ref_hess_kl jac_inv(k,a) jac_inv(l,b) + sum_k ref_grad_k hess_inv(k,a,b), for every slot below max_local_dofs; TrafoEvalHelper::calc_hess_inv(k,a,b) = - sum_c jac_inv(k,c) sum_lm hess_ten(c,l,m) jac_inv(l,a) jac_inv(m,b) (operands and index order)", 43)
 
     ck.rule("E13.is-on-ref", "InverseMappingHelper<Shape>::is_on_ref(p, tol) (the accept test of InverseMapping::unmap_point): the accepted set, extracted as a conjunction of affine inequalities in p and tol, contains the closed reference cell of Shape::ReferenceCell for every tol >= 0 (every reference vertex satisfies every inequality; the set is convex) and only grows with tol (no inequality gets tighter when tol increases); otherwise points on a facet/vertex of a cell are dropped by unmap_point", 12)
+
+    ck.rule("E11.functional-normalisation", "non-parametric Rannacher-Turek / Q1TBNP evaluators, _build_coeff_matrix(): every node functional row of the nodal matrix is a NORMALISED quadrature sum  (sum_k w_k m(x_k)) / (sum_k w_k): the normaliser is the sum of exactly the weights (facet / cell Jacobian determinants at the Gauss points) that multiply the integrand terms, each once; otherwise the functional of the constant is not 1 and the basis obtained by inverting the nodal matrix is not dual to the element's integral-mean functionals on cells whose facets are not parallelograms", 24)
+    ck.rule("E11.derivative-dof-scaling", "Hermite-3 / Bogner-Fox-Schmit: the reference gradient of every basis function at every reference vertex v is either 0 or row d of the trafo Jacobian matrix evaluated at v (coefficients as defined by prepare()): then and only then the real-coordinate gradient J^-T grad_ref equals e_d, i.e. the function is dual to the derivative functional d/dx_d at that vertex; a scaling by the determinant / volume measure loses the sign and mixes directions", 5)
 
     facts = featlib.extract("tu/c15_spaces.cpp", files=FILES)
     ck.tu(facts)
@@ -654,6 +657,10 @@ def analyse(ck, facts, tier, covered, not_covered, primary=True):
     # ---- reference-cell predicate of the inverse mapping ---------------------------------------------------------
     check_is_on_ref(ck, facts, refcell, tag)
 
+    # ---- run-time coefficient set-up: normalised functionals, derivative dof scaling ---------------------------------
+    check_nodal_normalisation(ck, facts, classes, tag)
+    check_derivative_scaling(ck, facts, refcell, classes, values, tag)
+
 
 def decode_layout(idx, dim):
     """idx: {k: poly} of global indices of local dof k.  -> ([(c,i,j)] per k, problems)"""
@@ -1043,3 +1050,162 @@ def check_is_on_ref(ck, facts, refcell, tag):
         ck.ob("E13.is-on-ref", tag + key + "/contains-cell", not cprob, "; ".join(cprob[:2]) if cprob else "all %d reference vertices satisfy the %d accept inequalities for every tol >= 0" % (len(verts), len(atoms)), f.file, f.line,
               sample={"accept": ["%s %s 0" % (L, ">" if st else ">=") for st, L in atoms][:6]})
         ck.ob("E13.is-on-ref", tag + key + "/monotone-in-tol", not mprob, "; ".join(mprob[:2]) if mprob else "no inequality tightens with tol", f.file, f.line)
+
+
+def _tiny_filter(t, call):
+    return t.file.endswith("/kernel/util/tiny_algebra.hpp") and t.name not in ("set_inverse", "det", "vol", "norm_euclid")
+
+
+def check_nodal_normalisation(ck, facts, classes, tag):
+    for (fam, sh), meths in sorted(classes.items()):
+        fs = meths.get("_build_coeff_matrix")
+        if not fs:
+            continue
+        f = fs[0]
+        inst = "%s/%s" % (fam, sh)
+        sx = AbsSymEx([facts], inline_filter=_tiny_filter, opaque=accessor_model)
+        sx.versioned = True
+        sx.allow_recip = True
+        try:
+            sx.run(f)
+        except NotClosedForm as e:
+            ck.incomplete("E11.functional-normalisation", "%s%s: %s" % (tag, inst, e))
+            continue
+        inv = [e for e in sx.events if e["callee"].endswith("::set_inverse") and e["args"] and isinstance(e["args"][0], Loc)]
+        if len(inv) != 1:
+            ck.incomplete("E11.functional-normalisation", "%s%s: the nodal matrix handed to set_inverse() is not recognised (%d calls)" % (tag, inst, len(inv)))
+            continue
+        nodal = inv[0]["args"][0]
+        ents = {p: v for p, v in sx.sub_entries(nodal) if isinstance(v, Poly)}
+        if not ents or not all(len(p) == 2 and all(isinstance(x, int) for x in p) for p in ents):
+            ck.incomplete("E11.functional-normalisation", "%s%s: entries of the nodal matrix not recognised" % (tag, inst))
+            continue
+        # which of the two indices numbers the functionals: the one along which the normaliser is constant
+        cols = sorted({p[1] for p in ents})
+        for c in cols:
+            problems, unknown = [], []
+            recs, wts = set(), set()
+            for p, v in ents.items():
+                if p[1] != c or v.is_const():
+                    continue
+                for mon in v.t:
+                    r = [(sname, e) for sname, e in mon if sname.startswith("RECIP")]
+                    w = [(sname, e) for sname, e in mon if ".jac_det@" in sname]
+                    if len(r) != 1 or r[0][1] != 1 or len(w) != 1 or w[0][1] != 1:
+                        unknown.append("entry %s has the term %s which is not weight * integrand / normaliser" % (p, Poly({mon: v.t[mon]})))
+                        break
+                    recs.add(r[0][0])
+                    wts.add(w[0][0])
+            if not recs and not unknown:
+                continue
+            if len(recs) > 1:
+                unknown.append("entries of functional %d use different normalisers" % c)
+            if not unknown:
+                den = sx.recips[sorted(recs)[0]]
+                if den.degree() != 1 or any(".jac_det@" not in sname for sname in den.symbols()) or not den.t.get((), 0) == 0:
+                    unknown.append("normaliser %s is not a sum of quadrature weights" % den)
+                else:
+                    want = Poly.const(0)
+                    for w in sorted(wts):
+                        want = want + Poly.sym(w)
+                    if den != want:
+                        short = lambda q: str(q).replace(loc_name(Loc(nodal.root)) , "")
+                        problems.append("functional %d is normalised by %s but its integrand terms carry the weights %s (each must occur exactly once in the normaliser)" % (c, den, want))
+            key = tag + "%s/functional[%d]" % (inst, c)
+            if problems:
+                ck.ob("E11.functional-normalisation", key, False, "; ".join(problems[:2]), f.file, f.line)
+            elif unknown:
+                ck.incomplete("E11.functional-normalisation", "%s: %s" % (key, "; ".join(unknown[:2])))
+            else:
+                ck.ob("E11.functional-normalisation", key, True, "sum of %d weighted integrand terms / sum of the same %d weights" % (len(wts), len(wts)), f.file, f.line)
+
+
+def check_derivative_scaling(ck, facts, refcell, classes, values, tag):
+    for (fam, sh), meths in sorted(classes.items()):
+        if fam not in ("Hermite3", "BognerFoxSchmit") or (fam, sh) not in values or "prepare" not in meths:
+            continue
+        inst = "%s/%s" % (fam, sh)
+        value_of, fv, X = values[(fam, sh)]
+        dim = shape_dim(sh)
+        fp = meths["prepare"][0]
+        sx = AbsSymEx([facts], inline_filter=_tiny_filter, opaque=accessor_model)
+        sx.versioned = True
+        try:
+            sx.run(fp)
+            verts = refcell.vertices(sh)
+        except NotClosedForm as e:
+            ck.incomplete("E11.derivative-dof-scaling", "%s%s: prepare(): %s" % (tag, inst, e))
+            continue
+        defs = {loc_name(Loc("this", p)): v for p, v in sx.outputs("this").items() if isinstance(v, Poly)}
+        point_of = {}
+        for e in sx.events:
+            if e["callee"].endswith("::operator()") and len(e["args"]) == 2 and isinstance(e["args"][1], Loc):
+                snap = (e.get("snap") or {}).get(loc_name(e["args"][1]), {})
+                try:
+                    point_of[e["n"]] = tuple(snap[(i,)].const_value() for i in range(dim))
+                except (KeyError, AttributeError):
+                    point_of[e["n"]] = None
+        affine = sh.startswith("Simplex") or dim == 1
+        problems, unknown = [], []
+        nderiv = 0
+        def member_def(name):
+            """value prepare() left in the member cell `this.a[i][j]` (follows aggregate copies of call-defined data)"""
+            if name in defs:
+                return defs[name]
+            m = re.match(r"^this\.(\w+)((?:\[\d+\])*)$", name)
+            if not m:
+                return None
+            path = (m.group(1),) + tuple(int(x) for x in re.findall(r"\[(\d+)\]", m.group(2)))
+            try:
+                v = sx.read(Loc("this", path))
+            except NotClosedForm:
+                return None
+            return v if isinstance(v, Poly) and v.single_symbol() != name else None
+
+        for s in sorted(value_of, key=str):
+            mp = {}
+            for k in value_of[s].symbols():
+                if k.startswith("this."):
+                    dv = member_def(k)
+                    if dv is not None:
+                        mp[k] = dv
+            val = value_of[s].subs(mp)
+            left = [x for x in val.symbols() if x.startswith("this.")]
+            if left:
+                unknown.append("phi[%s] depends on %s which prepare() does not define" % (slot_str(s), left[:2]))
+                continue
+            for vi, v in enumerate(verts):
+                g = [val.diff(X[k]).subs(dict(zip(X, v))) for k in range(dim)]
+                if all(c.is_zero() for c in g):
+                    continue
+                nderiv += 1
+                names = [c.single_symbol() for c in g]
+                ms = [re.match(r"^(.*)\.jac_mat\[(\d+)\]\[(\d+)\]@(\d+)$", nm or "") for nm in names]
+                if not all(ms):
+                    bad = [str(c) for c, m in zip(g, ms) if not m]
+                    if any(".jac_det" in b or "vol" in b for b in bad) or all(set(c.symbols()) and all("@" in x for x in c.symbols()) for c, m in zip(g, ms) if not m):
+                        problems.append("phi[%s]: reference gradient at vertex %d is %s, not a row of the Jacobian matrix (the derivative dof is scaled by a quantity that is not dx/dxi)" % (slot_str(s), vi, [str(c) for c in g]))
+                    else:
+                        unknown.append("phi[%s]: reference gradient at vertex %d is %s" % (slot_str(s), vi, [str(c) for c in g]))
+                    continue
+                d = {int(m.group(2)) for m in ms}
+                ks = [int(m.group(3)) for m in ms]
+                ev = {int(m.group(4)) for m in ms}
+                if len(d) != 1 or ks != list(range(dim)) or len(ev) != 1:
+                    problems.append("phi[%s]: reference gradient at vertex %d is %s, not one row (jac_mat[d][0..%d]) of one Jacobian" % (slot_str(s), vi, names, dim - 1))
+                    continue
+                pt = point_of.get(list(ev)[0])
+                if not affine:
+                    if pt is None:
+                        unknown.append("evaluation point of the Jacobian used by phi[%s] not recognised" % slot_str(s))
+                    elif tuple(pt) != tuple(v):
+                        problems.append("phi[%s] (derivative dof at vertex %d = %s) is scaled with the Jacobian evaluated at %s" % (slot_str(s), vi, tuple(map(str, v)), tuple(map(str, pt))))
+        if not nderiv and not problems and not unknown:
+            unknown.append("no basis function with a non-zero vertex gradient found")
+        key = tag + inst
+        if problems:
+            ck.ob("E11.derivative-dof-scaling", key, False, "; ".join(problems[:3]), fp.file, fp.line)
+        elif unknown:
+            ck.incomplete("E11.derivative-dof-scaling", "%s: %s" % (key, "; ".join(unknown[:3])))
+        else:
+            ck.ob("E11.derivative-dof-scaling", key, True, "%d (function, vertex) pairs with a non-zero reference gradient: each is a row of the Jacobian at that vertex" % nderiv, fp.file, fp.line)
